@@ -365,11 +365,135 @@ theorem flushReads_reads (t : Topo) (w : WId) (r : RId) (s : Sys) (l : List (Nat
     | none => rfl
     | some a => simp only [flushReads]; rw [ih, applyPrim_reads]
 
+/-! ### the queues of the sinks' readers hold only endpoints those sinks listen on -/
+
+def QueueOK (t : Topo) (s : Sys) : Prop := ∀ k, ∀ e ∈ s.queue k, t.listener e.1 e.2 = .sink k
+
+theorem deliverQ_ok (t : Topo) (w : WId) (queue : Nat → List (WId × RId)) (dl : List (RId × Nat))
+    (h : ∀ k, ∀ e ∈ queue k, t.listener e.1 e.2 = .sink k) :
+    ∀ k, ∀ e ∈ deliverQ t w queue dl k, t.listener e.1 e.2 = .sink k := by
+  induction dl generalizing queue with
+  | nil => exact h
+  | cons d rest ih =>
+    obtain ⟨r, v⟩ := d
+    simp only [deliverQ]
+    cases hl : t.listener w r with
+    | node _ => exact ih _ h
+    | sink k' =>
+      simp only
+      apply ih
+      intro k e he
+      by_cases hk : k = k'
+      · subst hk
+        simp only [if_true, List.mem_append, List.mem_singleton] at he
+        rcases he with he | rfl
+        · exact h k e he
+        · exact hl
+      · simp only [hk, if_false] at he
+        exact h k e he
+
+theorem applyPrim_queueOK (t : Topo) (s : Sys) (w : WId) (c : CStep) (h : QueueOK t s) :
+    QueueOK t (applyPrim .discard t s w c).1 := by
+  unfold QueueOK at *
+  simp only [applyPrim]
+  split
+  · exact deliverQ_ok t w _ _ h
+  · exact h
+
+theorem flushReads_queueOK (t : Topo) (w : WId) (r : RId) (s : Sys) (l : List (Nat × Option Ans)) (h : QueueOK t s) :
+    QueueOK t (flushReads .discard t w r s l).1 := by
+  induction l generalizing s with
+  | nil => exact h
+  | cons e rest ih =>
+    obtain ⟨v, oa⟩ := e
+    cases oa with
+    | none => exact h
+    | some a => simp only [flushReads]; exact ih _ (applyPrim_queueOK t s w _ h)
+
+theorem applyCloses_queueOK (t : Topo) (s : Sys) (cl : List Close) (h : QueueOK t s) :
+    QueueOK t (applyCloses .discard t s cl) := by
+  induction cl generalizing s with
+  | nil => exact h
+  | cons c rest ih =>
+    simp only [applyCloses]
+    apply ih
+    cases c <;> exact applyPrim_queueOK t s _ _ h
+
+theorem step_queueOK (t : Topo) (s : Sys) (st : Teardown.Step) (h : QueueOK t s) :
+    QueueOK t (Teardown.step .discard t s st).1 := by
+  cases st with
+  | prim w c => exact applyPrim_queueOK t s w c h
+  | fwd w r =>
+    simp only [Teardown.step]
+    cases t.listener w r with
+    | sink k => exact h
+    | node wo =>
+      cases s.inbox w r with
+      | nil => exact h
+      | cons v rest =>
+        simp only
+        have h1 : QueueOK t { s with inbox := fun x y => if x = w ∧ y = r then rest else s.inbox x y } := h
+        exact flushReads_queueOK t w r _ _ (applyPrim_queueOK t _ wo _ h1)
+  | bwd wo =>
+    simp only [Teardown.step]
+    cases t.consumer wo with
+    | requester => exact h
+    | node wi r =>
+      simp only
+      cases Pump.recv (s.comp wo).p with
+      | got a => exact flushReads_queueOK t wi r _ _ (applyPrim_queueOK t s wo _ h)
+      | closed => exact flushReads_queueOK t wi r _ _ h
+      | blocked => exact h
+  | fwdEnd w r =>
+    simp only [Teardown.step]
+    cases t.listener w r with
+    | sink k => exact h
+    | node wo =>
+      simp only
+      split
+      · have h1 : QueueOK t { s with inbox := fun x y => if x = w ∧ y = r then [] else s.inbox x y } := h
+        exact flushReads_queueOK t w r _ _ h1
+      · exact h
+  | sinkAnswer k a =>
+    simp only [Teardown.step]
+    cases hq : s.queue k with
+    | nil => exact h
+    | cons e rest =>
+      obtain ⟨w, r⟩ := e
+      simp only
+      apply applyPrim_queueOK
+      intro k' e he
+      by_cases hk : k' = k
+      · subst hk
+        simp only [if_true] at he
+        exact h k' e (by rw [hq]; exact List.mem_cons_of_mem _ he)
+      · simp only [hk, if_false] at he
+        exact h k' e he
+  | down td => exact applyCloses_queueOK t s _ h
+
 theorem upstream_step (t : Topo) (wi : WId) (r : RId) (wo : WId) (hl : t.listener wi r = .node wo) (hwo : wo ≠ wi)
-    (s : Sys) (st : Teardown.Step) (hb : AllBacked s) (hf : stepNoForeign wi r st) (h : Upstream s wi r) :
+    (s : Sys) (st : Teardown.Step) (hb : AllBacked s) (hq : QueueOK t s) (hf : stepNoForeign wi r st) (h : Upstream s wi r) :
     Upstream (Teardown.step .discard t s st).1 wi r := by
   have hnd := backed_nodup hb wi
   cases st with
+  | sinkAnswer k a =>
+    simp only [Teardown.step]
+    cases hqk : s.queue k with
+    | nil => exact h
+    | cons e rest =>
+      obtain ⟨w, r'⟩ := e
+      simp only
+      unfold Upstream
+      rw [applyPrim_reads]
+      -- the endpoint at the head of a sink's queue is listened to by that sink, not by the node
+      have hsink : t.listener w r' = .sink k := hq k (w, r') (by rw [hqk]; simp)
+      apply prim_owed t { s with queue := fun x => if x = k then rest else s.queue x } w _ wi r _ wo hl _
+        (by rintro _ ⟨v, hv⟩; cases hv) h
+      rintro ⟨hw, a', ha⟩
+      injection ha with ha
+      injection ha with h1 _
+      subst hw; subst h1
+      rw [hl] at hsink; cases hsink
   | prim w c =>
     simp only [Teardown.step]
     unfold Upstream
@@ -471,15 +595,281 @@ theorem upstream_step (t : Topo) (wi : WId) (r : RId) (wo : WId) (hl : t.listene
     exact closes_owed t wi r wo _ hl s _ h
 
 theorem upstream_run (t : Topo) (wi : WId) (r : RId) (wo : WId) (hl : t.listener wi r = .node wo) (hwo : wo ≠ wi) :
-    ∀ (h : List Teardown.Step) (s : Sys), AllBacked s → (∀ st ∈ h, stepNoForeign wi r st) →
+    ∀ (h : List Teardown.Step) (s : Sys), AllBacked s → QueueOK t s → (∀ st ∈ h, stepNoForeign wi r st) →
       Upstream s wi r → Upstream (Teardown.run .discard t s h) wi r ∧ AllBacked (Teardown.run .discard t s h) := by
   intro h
   induction h with
-  | nil => intro s hb _ hu; exact ⟨hu, hb⟩
+  | nil => intro s hb _ _ hu; exact ⟨hu, hb⟩
   | cons st rest ih =>
-    intro s hb hf hu
+    intro s hb hq hf hu
     simp only [Teardown.run]
-    exact ih _ (backed_step .discard t s st hb) (fun x hx => hf x (by simp [hx]))
-      (upstream_step t wi r wo hl hwo s st hb (hf st (by simp)) hu)
+    exact ih _ (backed_step .discard t s st hb) (step_queueOK t s st hq) (fun x hx => hf x (by simp [hx]))
+      (upstream_step t wi r wo hl hwo s st hb hq (hf st (by simp)) hu)
+
+end Uniflow.TeardownProofs
+
+/-! ### Once a node's in-reader is closed and its forward loop has ended, nothing enters through it -/
+
+namespace Uniflow.TeardownProofs
+open Uniflow Uniflow.Writer Uniflow.Teardown Uniflow.WriterProofs
+
+/-- a closed reader stays closed, whatever the critical section -/
+theorem wstep_closed_mono (m : W) (st : Writer.Step) (r : RId) (h : m.closed r = true) :
+    (Writer.step m st).1.closed r = true := by
+  cases st with
+  | link x => simp only [Writer.step, stepWith]; repeat (first | exact h | split)
+  | unlink x => simp only [Writer.step, stepWith]; repeat (first | exact h | split)
+  | write v => simp only [Writer.step, stepWith]; repeat (first | exact h | split)
+  | answer x a =>
+    simp only [Writer.step, stepWith]
+    split
+    · exact h
+    · rename_i g rest _
+      rw [(receive_pend { m with pend := fun y => if y = x then rest else m.pend y } a x g).2.1]; exact h
+  | closeR x =>
+    simp only [Writer.step, stepWith]
+    split
+    · exact h
+    · by_cases hx : r = x <;> simp [hx, h]
+  | deliverDrop x =>
+    simp only [Writer.step, stepWith]
+    split
+    · exact h
+    · rename_i g rest _
+      simp only
+      rw [(receive_pend { m with drops := fun y => if y = x then rest else m.drops y } Ans.dropped x g).2.1]; exact h
+  | closeW => simp only [Writer.step, stepWith]; repeat (first | exact h | split)
+
+/-- a closed reader is handed nothing -/
+theorem wstep_closed_no_deliv (m : W) (st : Writer.Step) (r : RId) (h : m.closed r = true) :
+    ((Writer.step m st).2.deliv.filter (fun d => d.1 = r)).length = 0 := by
+  cases st with
+  | write v =>
+    have hacc : r ∉ accepting m.closed m.readers := by
+      intro hx
+      have := (List.mem_filter.1 hx).2
+      simp [h] at this
+    have hf : (((accepting m.closed m.readers).map fun x => (x, v)).filter (fun d => d.1 = r)) = [] := by
+      simp only [List.filter_eq_nil_iff, List.mem_map]
+      rintro d ⟨x, hx, rfl⟩
+      simp only [decide_eq_true_eq]
+      rintro rfl
+      exact hacc hx
+    simp only [Writer.step, stepWith]
+    split
+    · simp
+    · split
+      · simp
+      · split
+        · simp
+        · split
+          · simp only; rw [hf]; rfl
+          · simp
+  | link x =>
+    have hd : (Writer.step m (.link x)).2.deliv = [] := by simp only [Writer.step, stepWith]; repeat (first | rfl | split)
+    rw [hd]; rfl
+  | unlink x =>
+    have hd : (Writer.step m (.unlink x)).2.deliv = [] := by simp only [Writer.step, stepWith]; repeat (first | rfl | split)
+    rw [hd]; rfl
+  | answer x a =>
+    have hd : (Writer.step m (.answer x a)).2.deliv = [] := by
+      simp only [Writer.step, stepWith]
+      split
+      · rfl
+      · rename_i g rest _
+        exact (receive_pend { m with pend := fun y => if y = x then rest else m.pend y } a x g).2.2
+    rw [hd]; rfl
+  | closeR x =>
+    have hd : (Writer.step m (.closeR x)).2.deliv = [] := by simp only [Writer.step, stepWith]; repeat (first | rfl | split)
+    rw [hd]; rfl
+  | deliverDrop x =>
+    have hd : (Writer.step m (.deliverDrop x)).2.deliv = [] := by
+      simp only [Writer.step, stepWith]
+      split
+      · rfl
+      · rename_i g rest _
+        exact (receive_pend { m with drops := fun y => if y = x then rest else m.drops y } Ans.dropped x g).2.2
+    rw [hd]; rfl
+  | closeW =>
+    have hd : (Writer.step m .closeW).2.deliv = [] := by simp only [Writer.step, stepWith]; repeat (first | rfl | split)
+    rw [hd]; rfl
+
+theorem sealed_setReads {s : Sys} {a : WId} {b : RId} {l : List (Nat × Option Ans)} {w : WId} {r : RId}
+    (h : (s.comp w).w.closed r = true ∧ s.inbox w r = []) :
+    ((setReads s a b l).comp w).w.closed r = true ∧ (setReads s a b l).inbox w r = [] := h
+
+/-- "reader `r` of `w` is closed and holds no request the forward loop could still take" -/
+def Sealed (s : Sys) (w : WId) (r : RId) : Prop :=
+  (s.comp w).w.closed r = true ∧ s.inbox w r = []
+
+theorem prim_sealed (t : Topo) (s : Sys) (w' : WId) (c : CStep) (w : WId) (r : RId) (wo : WId)
+    (hl : t.listener w r = .node wo) (h : Sealed s w r) : Sealed (applyPrim .discard t s w' c).1 w r := by
+  obtain ⟨hc, hi⟩ := h
+  by_cases hw : w' = w
+  · subst hw
+    constructor
+    · rw [applyPrim_comp]; simp only [if_true]
+      cases c with
+      | w st => simp only [applyC]; exact wstep_closed_mono _ st r hc
+      | recv =>
+        simp only [applyC]; split
+        · split <;> exact hc
+        · exact hc
+      | steal => exact hc
+      | pumpExit => exact hc
+    · cases c with
+      | w st =>
+        have hlen : ((applyPrim .discard t s w' (.w st)).1.inbox w' r).length = 0 := by
+          simp only [applyPrim, applyC, setComp]
+          rw [deliver_count t w' _ _ r wo hl, hi, wstep_closed_no_deliv _ st r hc]; rfl
+        exact List.length_eq_zero_iff.1 hlen
+      | recv =>
+        have hin : (applyPrim .discard t s w' .recv).1.inbox = s.inbox := by
+          simp only [applyPrim, applyC]
+          by_cases hg : (s.comp w').got.length < (s.comp w').accepted
+          · simp only [hg, if_true]
+            cases Pump.recv (s.comp w').p <;> rfl
+          · simp only [hg, if_false]; rfl
+        rw [hin]; exact hi
+      | steal => exact hi
+      | pumpExit => exact hi
+  · constructor
+    · rw [applyPrim_comp]; simp only [Ne.symm hw, if_false]; exact hc
+    · rw [applyPrim_inbox_other _ _ _ _ _ _ _ (Ne.symm hw)]; exact hi
+
+theorem flush_sealed (t : Topo) (w' : WId) (r' : RId) (w : WId) (r : RId) (wo : WId) (hl : t.listener w r = .node wo)
+    (s : Sys) (l : List (Nat × Option Ans)) (h : Sealed s w r) : Sealed (flushReads .discard t w' r' s l).1 w r := by
+  induction l generalizing s with
+  | nil => exact h
+  | cons e rest ih =>
+    obtain ⟨v, oa⟩ := e
+    cases oa with
+    | none => exact h
+    | some a => simp only [flushReads]; exact ih _ (prim_sealed t s w' _ w r wo hl h)
+
+theorem closes_sealed (t : Topo) (w : WId) (r : RId) (wo : WId) (hl : t.listener w r = .node wo)
+    (s : Sys) (cl : List Close) (h : Sealed s w r) : Sealed (applyCloses .discard t s cl) w r := by
+  induction cl generalizing s with
+  | nil => exact h
+  | cons c rest ih =>
+    simp only [applyCloses]
+    apply ih
+    cases c <;> exact prim_sealed t s _ _ w r wo hl h
+
+/-- Every step keeps a sealed reader sealed and leaves what its node still holds (`reads`) no
+longer than it was: the forward loop takes nothing more through it. -/
+theorem sealed_step (t : Topo) (w : WId) (r : RId) (wo : WId) (hl : t.listener w r = .node wo)
+    (s : Sys) (st : Teardown.Step) (h : Sealed s w r) (hr : s.reads w r = []) :
+    Sealed (Teardown.step .discard t s st).1 w r ∧ (Teardown.step .discard t s st).1.reads w r = [] := by
+  cases st with
+  | prim w' c => exact ⟨prim_sealed t s w' c w r wo hl h, by simp only [Teardown.step]; rw [applyPrim_reads]; exact hr⟩
+  | fwd w' r' =>
+    simp only [Teardown.step]
+    cases hl' : t.listener w' r' with
+    | sink k => exact ⟨h, hr⟩
+    | node wo' =>
+      cases hi : s.inbox w' r' with
+      | nil => exact ⟨h, hr⟩
+      | cons v rest =>
+        have hne : ¬ (w' = w ∧ r' = r) := by
+          rintro ⟨rfl, rfl⟩; rw [h.2] at hi; cases hi
+        have hne' : ¬ (w = w' ∧ r = r') := fun ⟨a, b⟩ => hne ⟨a.symm, b.symm⟩
+        simp only
+        constructor
+        · have h1 : Sealed { s with inbox := fun x y => if x = w' ∧ y = r' then rest else s.inbox x y } w r :=
+            ⟨h.1, by simp [hne', h.2]⟩
+          apply sealed_setReads
+          exact flush_sealed t w' r' w r wo hl _ _ (prim_sealed t _ wo' (.w (.write v)) w r wo hl h1)
+        · simp only [setReads, hne', if_false]
+          rw [flushReads_reads, applyPrim_reads]; exact hr
+  | bwd wo' =>
+    simp only [Teardown.step]
+    cases hc' : t.consumer wo' with
+    | requester => exact ⟨h, hr⟩
+    | node wi' r' =>
+      simp only
+      cases hrv : Pump.recv (s.comp wo').p with
+      | got a =>
+        simp only
+        constructor
+        · apply sealed_setReads
+          exact flush_sealed t wi' r' w r wo hl _ _ (prim_sealed t s wo' .recv w r wo hl h)
+        · by_cases hsame : w = wi' ∧ r = r'
+          · obtain ⟨rfl, rfl⟩ := hsame
+            simp only [setReads, and_self, if_true]
+            rw [hr]; rfl
+          · simp only [setReads, hsame, if_false]
+            rw [flushReads_reads, applyPrim_reads]; exact hr
+      | closed =>
+        simp only
+        constructor
+        · apply sealed_setReads
+          exact flush_sealed t wi' r' w r wo hl s _ h
+        · by_cases hsame : w = wi' ∧ r = r'
+          · obtain ⟨rfl, rfl⟩ := hsame
+            simp only [setReads, and_self, if_true]
+            rw [hr]; rfl
+          · simp only [setReads, hsame, if_false]
+            rw [flushReads_reads]; exact hr
+      | blocked => exact ⟨h, hr⟩
+  | fwdEnd w' r' =>
+    simp only [Teardown.step]
+    cases hl' : t.listener w' r' with
+    | sink k => exact ⟨h, hr⟩
+    | node wo' =>
+      simp only
+      split
+      · constructor
+        · have h1 : Sealed { s with inbox := fun x y => if x = w' ∧ y = r' then [] else s.inbox x y } w r := by
+            refine ⟨h.1, ?_⟩
+            simp only
+            split
+            · rfl
+            · exact h.2
+          apply sealed_setReads
+          exact flush_sealed t w' r' w r wo hl _ _ h1
+        · by_cases hsame : w = w' ∧ r = r'
+          · obtain ⟨rfl, rfl⟩ := hsame
+            simp only [setReads, and_self, if_true]
+            rw [hr]; rfl
+          · simp only [setReads, hsame, if_false]
+            rw [flushReads_reads]; exact hr
+      · exact ⟨h, hr⟩
+  | sinkAnswer k a =>
+    simp only [Teardown.step]
+    cases hq : s.queue k with
+    | nil => exact ⟨h, hr⟩
+    | cons e rest =>
+      obtain ⟨w', r'⟩ := e
+      simp only
+      have h1 : Sealed { s with queue := fun x => if x = k then rest else s.queue x } w r := h
+      exact ⟨prim_sealed t _ w' _ w r wo hl h1, by rw [applyPrim_reads]; exact hr⟩
+  | down td =>
+    simp only [Teardown.step]
+    exact ⟨closes_sealed t w r wo hl s _ h, by rw [applyCloses_reads]; exact hr⟩
+
+theorem sealed_run (t : Topo) (w : WId) (r : RId) (wo : WId) (hl : t.listener w r = .node wo) :
+    ∀ (h : List Teardown.Step) (s : Sys), Sealed s w r → s.reads w r = [] →
+      Sealed (Teardown.run .discard t s h) w r ∧ (Teardown.run .discard t s h).reads w r = [] := by
+  intro h
+  induction h with
+  | nil => intro s hs hr; exact ⟨hs, hr⟩
+  | cons st rest ih =>
+    intro s hs hr
+    simp only [Teardown.run]
+    obtain ⟨h1, h2⟩ := sealed_step t w r wo hl s st hs hr
+    exact ih _ h1 h2
+
+/-- `fwdEnd` on a closed reader seals it and leaves nothing waiting. -/
+theorem fwdEnd_seals (t : Topo) (w : WId) (r : RId) (wo : WId) (hl : t.listener w r = .node wo) (s : Sys)
+    (hc : (s.comp w).w.closed r = true) :
+    Sealed (Teardown.step .discard t s (.fwdEnd w r)).1 w r ∧ (Teardown.step .discard t s (.fwdEnd w r)).1.reads w r = [] := by
+  simp only [Teardown.step, hl, hc, if_true]
+  constructor
+  · have h1 : Sealed { s with inbox := fun x y => if x = w ∧ y = r then [] else s.inbox x y } w r := ⟨hc, by simp⟩
+    apply sealed_setReads
+    exact flush_sealed t w r w r wo hl _ _ h1
+  · simp only [setReads, and_self, if_true]
+    exact flushReads_all_some _ _ _ _ _ _ (fillAll_all_some _ _)
 
 end Uniflow.TeardownProofs
